@@ -1750,7 +1750,7 @@ func (r *runner) runOOO(os_ *OOOSpec, desc map[string]any) error {
 			d[k] = v
 		}
 		d["block"] = bi
-		if !b.Meta().Compaction.FromOutOfOrder() {
+		if bm := b.Meta(); !bm.Compaction.FromOutOfOrder() {
 			return errors.New("block written by CompactOOOHead lacks the out-of-order hint")
 		}
 		r.meta.Hit("ooo-head")
